@@ -177,6 +177,11 @@ def cases(tier, seed):
             mk(algo, "vector", lamb, g, ["mut:arch", "act:3:0.0", "mut:arch", "act:3:0.0", "mut:arch", "act:3:0.5"])
             mk(algo, "vector", lamb, g, ["act:5:0.3", "clone", "act:5:0.0", "clone", "act:3:0.0"])
             mk(algo, "vector", lamb, g, ["clone", "act:4:0.0"])
+            if lamb == 1.0:
+                # long lives AFTER a copy / restore (anything the agent keeps next to sigma_inv has to travel with it)
+                mk(algo, "vector", lamb, g, ["act:6:0.0", "clone", "act:70:0.0", "act:70:0.3"])
+                mk(algo, "vector", lamb, g, ["act:6:0.3", "ckpt:load", "act:70:0.0", "act:66:0.0"])
+                mk(algo, "vector", lamb, g, ["act:6:0.0", "ckpt:load_checkpoint", "act:70:0.0", "learn", "act:66:0.3"])
             mk(algo, "vector", lamb, g, ["act:5:0.0", "ckpt:load", "act:5:0.3"])
             mk(algo, "vector", lamb, g, ["act:5:0.0", "ckpt:load_checkpoint", "act:5:0.3"])
             mk(algo, "vector", lamb, g, ["mut:arch", "act:3:0.0", "ckpt:load", "act:3:0.0", "mut:act", "ckpt:load_checkpoint", "act:3:0.0"])
